@@ -88,7 +88,8 @@ def main(args):
         meta = json.load(open(os.path.join(sdir, d, 'meta.json')))
         tmp = scratch()
         try:
-            r = subprocess.run(['patch', '-p1', '-s', '-i', os.path.join(sdir, d, 'patch.diff')], cwd=tmp + '/repo', stdout=subprocess.DEVNULL, stderr=subprocess.DEVNULL)
+            # strict application (no fuzz): a seed written before a later fix: commit must not be half-applied onto the fixed code
+            r = subprocess.run(['git', 'apply', '--whitespace=nowarn', os.path.join(sdir, d, 'patch.diff')], cwd=tmp + '/repo', stdout=subprocess.DEVNULL, stderr=subprocess.DEVNULL)
             baseline = {}
             if r.returncode != 0:
                 # the seed predates a later fix: commit in /repo: replay it on the commit it was written for and report only what the
@@ -115,11 +116,17 @@ def main(args):
         finally:
             shutil.rmtree(tmp, ignore_errors=True)
     bdir = os.path.join(HERE, 'selftest', 'benign')
-    for fn in sorted(os.listdir(bdir)) if os.path.isdir(bdir) else []:
-        if not fn.endswith('.diff'):
+    tdir = os.path.join(HERE, 'selftest', 'twins')
+    # twins: the refactoring part of a refactoring-plus-defect seed with the defect repaired by hand (behaviour-preserving); the ones listed in
+    # twins/LIMITS.json are algorithm redesigns that the structural rules report as undecided (documented limit, DESIGN.md 7.6)
+    limits = json.load(open(os.path.join(tdir, 'LIMITS.json'))) if os.path.exists(os.path.join(tdir, 'LIMITS.json')) else {}
+    entries = [(bdir, fn, 'benign-' + fn[:-5]) for fn in (sorted(os.listdir(bdir)) if os.path.isdir(bdir) else []) if fn.endswith('.diff')]
+    entries += [(tdir, fn, 'twin-' + fn[:-5]) for fn in (sorted(os.listdir(tdir)) if os.path.isdir(tdir) else []) if fn.endswith('.diff')]
+    for bdir, fn, name in entries:
+        if only and name not in only and 'benign' not in only and name.split('-')[1] not in only:
             continue
-        name = 'benign-' + fn[:-5]
-        if only and name not in only and 'benign' not in only:
+        if name.startswith('twin-') and fn[:-5] in limits:
+            results.append((name, 'benign', 'LIMIT (undecided by design: ' + limits[fn[:-5]] + ')'))
             continue
         tmp = scratch()
         try:
